@@ -147,12 +147,14 @@ where
             || has_config8_changes
             || has_config9_changes;
 
-        let mut tmp_int_config0 = self.device.config.int_config.get_config0();
+        let int_config0 = self.device.config.int_config.get_config0();
+        let mut tmp_int_config0 = int_config0;
 
         // Temporarily disable interrupt, if active
         if tmp_int_config0.orientch_int() && has_changes {
             tmp_int_config0 = tmp_int_config0.with_orientch_int(false);
             self.device.interface.write_register(tmp_int_config0)?;
+            self.device.config.int_config.set_config0(tmp_int_config0);
         }
         // Write the changes
         if has_config0_changes {
@@ -192,8 +194,9 @@ where
             self.device.config.orientch_config.orientch_config9 = self.config.orientch_config9;
         }
         // Re-enable interrupt, if disabled
-        if self.device.config.int_config.get_config0().bits() != tmp_int_config0.bits() {
-            self.device.interface.write_register(self.device.config.int_config.get_config0())?;
+        if int_config0.bits() != tmp_int_config0.bits() {
+            self.device.interface.write_register(int_config0)?;
+            self.device.config.int_config.set_config0(int_config0);
         }
         Ok(())
     }
